@@ -11,6 +11,25 @@ EXTERNAL_PROP_SITES = {
 }
 
 
+SAFE_VALUE_CTORS = {"rbx_types::variant::Variant::Ref": "a Ref is never a UniqueId", "rbx_types::variant::Variant::SharedString": "a SharedString is never a UniqueId"}
+
+
+def inserts_only_non_id_values(prog, fn_path):
+    """every `<instance>.properties.insert(key, value)` in the function stores a value built with a constructor that
+    cannot be a UniqueId (second pass of Ref / SharedString resolution in the XML reader)"""
+    f = prog.fns.get(fn_path)
+    if f is None or f.body is None:
+        return False
+    ins = [x for x in core.walk_fn(f) if x.get("k") == "MethodCall" and x["m"] == "insert" and "properties" in core.place_root(x["recv"])[1] and len(x["args"]) == 2]
+    if not ins:
+        return False
+    for x in ins:
+        v = core.strip(x["args"][1])
+        if not (v.get("k") == "Call" and v["f"].get("def") in SAFE_VALUE_CTORS):
+            return False
+    return True
+
+
 def rule_book(c, prog, reader_rule=True):
     R = "C12.book"
     c.rule(R, "per public function of rbx_dom_weak::dom (private helpers inlined): every insertion into / removal from the instance map is followed on every path by the UniqueId bookkeeping test (`properties.get(\"UniqueId\")`, whose outcomes C12.coll checks), and unique_ids changes only in functions that also change the instance map; outside rbx_dom_weak nobody replaces or structurally edits the property map of an instance that is already in a DOM")
@@ -66,7 +85,7 @@ def rule_book(c, prog, reader_rule=True):
             continue
         n += 1
         inst = f"ext-props|{fn}|{cls}"
-        if (fn, cls) in EXTERNAL_PROP_SITES:
+        if cls == "structural:insert" and inserts_only_non_id_values(prog, fn):
             c.ok(R, inst)
         elif cls == "assign":
             c.violation(R, f"ext-props|{fn}|assign", f"{fn} assigns `instance.properties` wholesale on an instance that is already inside a WeakDom (after insert): a UniqueId arriving this way is never recorded in unique_ids and never checked for collision — two instances with the same UniqueId can coexist", m["sp"], instance=inst)
